@@ -267,7 +267,9 @@ func runC12(o *cli.Opts, run *evid.Run) {
 		mode string
 		d, b int
 	}
-	seq := []seqDim{{"insertion", 2, 5}, {"deletion", 3, 2}, {"insertion", 2, 5}, {"deletion", 2, 18}, {"insertion", 3, 2}, {"deletion", 2, 18}, {"insertion", 2, 5}}
+	seq := []seqDim{{"insertion", 2, 5}, {"deletion", 3, 2}, {"insertion", 2, 5}, {"deletion", 2, 18}, {"insertion", 3, 2}, {"deletion", 2, 18}, {"insertion", 2, 5},
+		// same mode and batch size as dimensions built earlier in this process, different depth
+		{"insertion", 4, 2}, {"deletion", 5, 2}, {"insertion", 3, 5}, {"insertion", 4, 2}}
 	seen := map[seqDim]string{}
 	for i, sd := range seq {
 		key := fmt.Sprintf("C12/sequence/%d/%s/d=%d/b=%d", i, sd.mode, sd.d, sd.b)
